@@ -27,7 +27,7 @@ MANIFEST = {
                  'distances_from_base_position/_lengths and pymatgen to_positions/to_displacements; induction lemmas; z3 QF_FP for the wrap '
                  'kernel; native replay; face-adjacent doubles x integer shifts as bounded stand-in',
 }
-UNITS = ['unit_to_positions', 'unit_wrap_fp', 'unit_to_displacements', 'unit_lemmas', 'unit_lengths', 'unit_distances']
+UNITS = ['unit_to_positions', 'unit_wrap_fp', 'unit_to_displacements', 'unit_lemmas', 'unit_lengths', 'unit_distances', 'unit_plumbing']
 BOUNDED = ['bounded_wrap']
 META = {
     'clauses': {'C01.wrap.fp': 'P (QF_FP)', 'C01.wrap.cong': 'P', 'C01.disp.def': 'P', 'C01.recon': 'P (induction lemma)', 'C01.roundtrip': 'P (lemma)',
@@ -429,6 +429,31 @@ def replay_wrap(inputs):
             b_ = a_ + (((b_ - a_) + 0.5) % 1 - 0.5)  # wrapped view: compared modulo 1 (a value within rounding distance of a face may come back on either side)
         if a_.shape != b_.shape or not np.allclose(a_, b_, atol=1e-9):
             bad.append(f'{name} of the same object changed after other queries / derived-trajectory constructors were called on it')
+    # trajectories obtained from this one (a slice that does not start at frame 0, the later part of a split, one species): they are trajectories
+    # too - positions wrapped and congruent to the corresponding input frames, also after a displacement query on the derived object
+    if T >= 3:
+        src = mk(coords)
+        derived = [('[1:]', src[1:], coords[1:]), ('[2:]', src[2:], coords[2:]), ('split(2)[1]', src.split(2)[1], None), ("filter('O')[1:]", src.filter('O')[1:], coords[1:, 1:2])]
+        for name, dtr, ref in derived:
+            if ref is None:
+                e_ = np.linspace(0, T - 1, 3, dtype=int)
+                ref = coords[e_[1]:e_[2]]
+            for stage in ('as obtained', 'after its displacements were queried'):
+                pd_ = np.asarray(dtr.positions)
+                if pd_.shape != ref.shape:
+                    bad.append(f'trajectory{name}: positions of shape {pd_.shape}, frames of shape {ref.shape} expected')
+                    break
+                kk = pd_ - ref
+                if (pd_ < 0).any() or (pd_ >= 1).any() or np.abs(kk - np.round(kk)).max() > 1e-9:
+                    bad.append(f'trajectory{name} ({stage}): positions are not the corresponding input frames modulo 1')
+                    break
+                dd = np.asarray(dtr.displacements)
+                if strict and len(ref) > 1:
+                    ex = np.diff(ref, axis=0)
+                    ex = ex - np.round(ex)
+                    if np.abs((dd[1:] - ex + 0.5) % 1 - 0.5).max() > 1e-9:
+                        bad.append(f'trajectory{name}: displacements are not the minimum-image differences of its own frames')
+                        break
     return {'reproduced': bool(bad), 'detail': f'values={vals}: ' + '; '.join(bad[:4])}
 
 
@@ -450,3 +475,11 @@ def bounded_wrap(tier, seed):
         if r['reproduced']:
             st.violation('wrap', r['detail'], 'verif.props.c01:replay_wrap', inp)
     return st.result()
+
+
+# plumbing around the anchored functions: forwarding contracts of the public wrappers, no state shared between calls or objects
+from verif.props import plumbing as _plumbing  # noqa: E402
+
+
+def unit_plumbing(tier):
+    return _plumbing.unit_plumbing(PROPERTY)
